@@ -8,6 +8,7 @@ package interp
 
 import (
 	"bufio"
+	"context"
 	"fmt"
 	"io"
 	"os"
@@ -56,7 +57,7 @@ type Solver struct {
 }
 
 func NewSolver(stats *SolverStats, tmpDir string, incMs, shotSec int) *Solver {
-	s := &Solver{bin: "z3", args: []string{"-in"}, stats: stats, tmpDir: tmpDir, incMs: incMs, shotSec: shotSec}
+	s := &Solver{bin: "z3", args: []string{"-in", fmt.Sprintf("-t:%d", incMs)}, stats: stats, tmpDir: tmpDir, incMs: incMs, shotSec: shotSec}
 	s.start()
 	return s
 }
@@ -89,6 +90,12 @@ func (s *Solver) restart() {
 
 // ask sends q and returns everything printed up to the echo marker.
 func (s *Solver) ask(q string) (string, error) {
+	// watchdog: z3's own timeout does not cover preprocessing (bit-blasting
+	// wide division/multiplication), so a stuck process is killed; the read
+	// below then fails and the caller restarts the solver.
+	proc := s.cmd.Process
+	wd := time.AfterFunc(time.Duration(s.incMs)*time.Millisecond+3*time.Second, func() { proc.Kill() })
+	defer wd.Stop()
 	if _, err := io.WriteString(s.in, q+"(echo \"@@done\")\n"); err != nil {
 		return "", err
 	}
@@ -267,7 +274,9 @@ func (s *Solver) oneShot(bin string, args []string, body, getv string) (string, 
 		return "unknown", nil
 	}
 	defer os.Remove(fn)
-	cmd := exec.Command(bin, append(args, fn)...)
+	ctx, cancel := context.WithTimeout(context.Background(), time.Duration(s.shotSec+5)*time.Second)
+	defer cancel()
+	cmd := exec.CommandContext(ctx, bin, append(args, fn)...)
 	outb, _ := cmd.CombinedOutput()
 	out := string(outb)
 	res := firstWord(out)
